@@ -306,4 +306,33 @@ theorem no_crash_of_canonical (w : World) (path : Name)
         rw [e] at this
         cases this
 
+/-! ### the discovery rule, pinned -/
+
+/-- "hidden" is exactly "the name starts with a dot": `_wip`, `testdata`, `vendor`, `node_modules` …
+are walked like any other directory -/
+theorem hidden_iff_dot (n : Name) : isHidden n = true ↔ ∃ r, n = '.' :: r := by
+  cases n with
+  | nil => simp [isHidden]
+  | cons c r => simp [isHidden]
+
+/-- only directories are tested for the dot: a file is a test file iff its path has the suffix,
+whatever its name (hidden files included) -/
+theorem file_found_iff_suffix (n : Name) (c : Option Tree) (path : Name) (f : TestFile) :
+    f ∈ Impl.walk (.file n c) path ↔ isTestPath path = true ∧ f = ⟨path, c⟩ := by
+  by_cases h : isTestPath path = true <;> simp [Impl.walk, h]
+
+/-- a directory whose name does not start with a dot hides nothing: the test files found under it
+are exactly those found under its children -/
+theorem visible_dir_walked (n : Name) (ch : List Node) (path : Name) (f : TestFile)
+    (hn : ∀ r, n ≠ '.' :: r) :
+    f ∈ Impl.walk (.dir n ch) path ↔ ∃ c ∈ ch, f ∈ Impl.walk c (joinPath path c.name) := by
+  have hh : isHidden n = false := by
+    cases h : isHidden n with
+    | false => rfl
+    | true => obtain ⟨r, hr⟩ := (hidden_iff_dot n).1 h; exact absurd hr (hn r)
+  simp only [Impl.walk, hh, Bool.false_eq_true, if_false, walkAll_iff]
+  constructor
+  · rintro ⟨c, hc, hu⟩; exact ⟨c, hc, (walk_iff c _ f).2 hu⟩
+  · rintro ⟨c, hc, hu⟩; exact ⟨c, hc, (walk_iff c _ f).1 hu⟩
+
 end Arrai.C20.Theorems
